@@ -1236,6 +1236,17 @@ class Transformer:
                         removed_policies, policy_name,
                         f"negative AT time '{at_time}'")
                     break
+                # BasicZoneProcessor cannot place a transition later than 24:00
+                # (rules which end before start_year are only used as the
+                # prior state, whose AT time is not evaluated).
+                if (self.scope == 'basic' and at_seconds > 24 * 3600
+                        and rule['toYear'] >= self.start_year - 1):
+                    valid = False
+                    _add_reason(
+                        removed_policies, policy_name,
+                        f"AT time '{at_time}' later than 24:00 is not "
+                        f"supported by BasicZoneProcessor")
+                    break
 
                 at_seconds_truncated = truncate_to_granularity(
                     at_seconds, self.until_at_granularity)
